@@ -25,6 +25,16 @@ func payloadOf(got string) string {
 	if json.Unmarshal([]byte(got), &v) == nil && v.R != "" {
 		return v.R
 	}
+	var arr []any
+	if json.Unmarshal([]byte(got), &arr) == nil && len(arr) > 0 {
+		if s, ok := arr[0].(string); ok {
+			return s
+		}
+	}
+	var str string
+	if json.Unmarshal([]byte(got), &str) == nil && str != "" {
+		return str
+	}
 	return got
 }
 
@@ -95,6 +105,10 @@ func (w *cliWorld) checkMatching(final bool, faulty bool) {
 				}
 				used[pay] = q.Tag
 				q.Answered = true
+				if !hit.IsErr && hit.Result != "" && compactJSON(q.Got) != compactJSON(hit.Result) {
+					r.Fail("foreign-payload", "request %s: result %s returned, the peer sent %s", q.Tag, preview([]byte(q.Got)), preview([]byte(hit.Result)))
+					return
+				}
 				if hit.IsErr {
 					// code and data arrive unchanged
 					want := 0
